@@ -17,7 +17,9 @@ boundary test points).
 import ast
 from fractions import Fraction
 
-from extract import find_class, find_func, lbool, llist, lstr, parse
+import json
+
+from extract import REPO, find_class, find_func, lbool, llist, lstr, parse, run_in_repo
 
 CLASSES = [
     ("pyxel/detectors/geometry.py", "Geometry"),
@@ -73,143 +75,116 @@ FALLBACK = TYPES + (
 )
 
 
-class Unsupported(Exception):
-    pass
+# ------------------------------------------------------------------ guard table: OBSERVED on the real constructors / setters
+# The set of fields comes from the PUBLIC signatures (constructor parameters that have a property setter of the same
+# name, numeric annotation); candidate breakpoints are every numeric literal of the class's module (and every number
+# quoted in its strings / error messages).  For each field the probe below asks the real constructor and the real setter
+# at every candidate, between every two neighbours, beyond both ends, at nan and ±inf, and the accepted set is written
+# down as a `Cond` (`not (union of accepted intervals)`, or `union of refused intervals` when nan is accepted).
+# A behaviour-preserving rewrite (helpers, guard clauses, renamed locals, table-driven checks) yields the same table.
+GUARD_PROBE = r"""
+import json, math, tempfile, os, warnings
+warnings.filterwarnings("ignore")
+SPEC = json.loads(%r)
+import numpy as np
+from pyxel.detectors import (APDCharacteristics, APDGeometry, CCDGeometry, Characteristics, CMOSGeometry, Environment,
+                             MKIDGeometry)
+tmp = tempfile.mkdtemp()
+np.save(os.path.join(tmp, "target.npy"), np.ones((3, 4)))
 
 
-_RANGE_USED: list = []
+def build(cls, kw):
+    if cls == "Geometry":
+        return CCDGeometry(**{**dict(row=3, col=4, total_thickness=40.0, pixel_vert_size=10.0, pixel_horz_size=10.0), **kw})
+    if cls == "Environment":
+        return Environment(**{**dict(temperature=200.0), **kw})
+    if cls == "Characteristics":
+        return Characteristics(**{**dict(quantum_efficiency=0.9, charge_to_volt_conversion=1e-6, pre_amplification=100.0,
+                                         full_well_capacity=100000, adc_bit_resolution=16, adc_voltage_range=(0.0, 10.0)), **kw})
+    if cls == "APDCharacteristics":
+        return APDCharacteristics(**{**dict(roic_gain=0.8, quantum_efficiency=0.9, full_well_capacity=100000, adc_bit_resolution=16,
+                                            adc_voltage_range=(0.0, 10.0), avalanche_gain=2.0, pixel_reset_voltage=5.0), **kw})
+    from pyxel.calibration import Algorithm, Calibration
+    if cls == "Algorithm":
+        return Algorithm(**kw)
+    from pyxel.observation import ParameterValues
+    from pyxel.pipelines import FitnessFunction
+    return Calibration(target_data_path=[os.path.join(tmp, "target.npy")],
+                       fitness_function=FitnessFunction(func="pyxel.calibration.fitness.sum_of_abs_residuals"),
+                       algorithm=Algorithm(type="sade", generations=2, population_size=8),
+                       parameters=[ParameterValues(key="detector.characteristics.quantum_efficiency", values="_", boundaries=(0.1, 0.9))],
+                       result_fit_range=[0, 3, 0, 4], target_fit_range=[0, 3, 0, 4], **kw)
 
 
-OPS = {ast.Lt: "lt", ast.LtE: "le", ast.Gt: "gt", ast.GtE: "ge", ast.Eq: "eq", ast.NotEq: "ne"}
-IGNORED_NAMES = {"isinstance", "int", "float", "np", "numpy", "min", "max", "len", "Sequence", "WavelengthHandling", "bool", "range"}
-
-
-def names_in(node):
-    return {n.id for n in ast.walk(node) if isinstance(n, ast.Name)} - IGNORED_NAMES
-
-
-def term(node, var):
-    if isinstance(node, ast.Name) and node.id == var:
-        return ("x",)
-    if isinstance(node, ast.Constant) and isinstance(node.value, (int, float)) and not isinstance(node.value, bool):
-        return ("const", Fraction(node.value))
-    if isinstance(node, ast.UnaryOp) and isinstance(node.op, ast.USub):
-        t = term(node.operand, var)
-        if t[0] == "const":
-            return ("const", -t[1])
-    if isinstance(node, ast.Call) and len(node.args) == 1 and not node.keywords:
-        f = node.func
-        nm = f.attr if isinstance(f, ast.Attribute) else getattr(f, "id", None)
-        if nm in ("min", "max") and isinstance(node.args[0], ast.Name) and node.args[0].id == var:
-            return ("x",)  # np.min / np.max of a scalar is the scalar
-    raise Unsupported(ast.dump(node)[:80])
-
-
-def is_number_types(node):
-    names = set()
-    for n in ast.walk(node):
-        if isinstance(n, ast.Name):
-            names.add(n.id)
-    if names == {"int"}:
-        _RANGE_USED.append("isinstance-int")      # `isinstance(x, int)`: true of the integers the field is made for
+def accepted(f, *a):
+    try:
+        f(*a)
         return True
-    return names == {"int", "float"}
+    except Exception:
+        return False
 
 
-def cond(node, var):
-    if isinstance(node, ast.BoolOp):
-        cs = [cond(v, var) for v in node.values]
-        op = "and" if isinstance(node.op, ast.And) else "or"
-        out = cs[0]
-        for c in cs[1:]:
-            out = (op, out, c)
-        return out
-    if isinstance(node, ast.UnaryOp) and isinstance(node.op, ast.Not):
-        return ("not", cond(node.operand, var))
-    if isinstance(node, ast.Name) and node.id == var:
-        return ("truthy",)
-    if isinstance(node, ast.Constant) and isinstance(node.value, bool):
-        return ("tt",) if node.value else ("ff",)
-    if isinstance(node, ast.Call) and getattr(node.func, "id", None) == "isinstance" and len(node.args) == 2:
-        if isinstance(node.args[0], ast.Name) and node.args[0].id == var:
-            return ("isNumber",) if is_number_types(node.args[1]) else ("ff",)  # a number is no other class
-        raise Unsupported("isinstance of something else")
-    if isinstance(node, ast.Compare):
-        if len(node.ops) == 1 and isinstance(node.ops[0], (ast.Is, ast.IsNot)):
-            if isinstance(node.left, ast.Name) and node.left.id == var and isinstance(node.comparators[0], ast.Constant) \
-                    and node.comparators[0].value is None:
-                return ("notNone",) if isinstance(node.ops[0], ast.IsNot) else ("not", ("notNone",))
-            raise Unsupported("is / is not")
-        if len(node.ops) == 1 and isinstance(node.ops[0], (ast.In, ast.NotIn)):
-            # `x in range(a, b)` / `x not in range(b)` with integer constants
-            c = node.comparators[0]
-            if isinstance(node.left, ast.Name) and node.left.id == var and isinstance(c, ast.Call) \
-                    and getattr(c.func, "id", None) == "range" and 1 <= len(c.args) <= 2 and not c.keywords:
-                bounds = [term(a, var) for a in c.args]
-                if all(b[0] == "const" and b[1].denominator == 1 for b in bounds):
-                    lo = bounds[0][1] if len(bounds) == 2 else Fraction(0)
-                    hi = bounds[-1][1] - 1
-                    _RANGE_USED.append(var)
-                    inside = ("chain", ("const", lo), "le", ("x",), "le", ("const", hi))
-                    return inside if isinstance(node.ops[0], ast.In) else ("not", inside)
-            raise Unsupported("in / not in")
-        ops = []
-        for o in node.ops:
-            if type(o) not in OPS:
-                raise Unsupported(type(o).__name__)
-            ops.append(OPS[type(o)])
-        ts = [term(node.left, var)] + [term(c, var) for c in node.comparators]
-        if len(ops) == 1:
-            return ("cmp", ts[0], ops[0], ts[1])
-        if len(ops) == 2:
-            return ("chain", ts[0], ops[0], ts[1], ops[1], ts[2])
-        raise Unsupported("comparison chain of length > 2")
-    raise Unsupported(ast.dump(node)[:80])
+def ask(cls, field, x):
+    c = accepted(build, cls, {field: x})
+    try:
+        obj = build(cls, {})
+        s = accepted(setattr, obj, field, x)
+    except Exception:
+        s = None
+    return [c, s]
 
 
-def guards(stmts, ctx=()):
-    """yield (list of (test, negated), ) for every `if` (with its enclosing tests) whose body raises directly"""
-    for st in stmts:
-        if isinstance(st, ast.If):
-            here = ctx + ((st.test, False),)
-            if any(isinstance(b, ast.Raise) for b in st.body):
-                yield here
-            yield from guards(st.body, here)
-            if st.orelse:
-                neg = ctx + ((st.test, True),)
-                if any(isinstance(b, ast.Raise) for b in st.orelse):
-                    yield neg
-                yield from guards(st.orelse, neg)
-        elif isinstance(st, (ast.With, ast.Try, ast.For, ast.While)):
-            yield from guards(getattr(st, "body", []), ctx)
+out = []
+for e in SPEC:
+    cls, field, ks, integral = e["cls"], e["field"], sorted(set(e["consts"])), e["int"]
+    if integral:
+        ks = sorted({int(k) for k in ks if float(k).is_integer()})
+    if not ks:
+        ks = [0]
+    num = (lambda v: int(v)) if integral else (lambda v: float(v))
+    pts = []          # (kind, a, b, value)
+    pts.append(("below", None, ks[0], num(ks[0] - 1)))
+    for i, k in enumerate(ks):
+        pts.append(("at", k, k, num(k)))
+        if i + 1 < len(ks):
+            a, b = k, ks[i + 1]
+            if integral:
+                if b - a <= 1:
+                    continue            # no integer strictly between two neighbouring integers
+                mid = int((a + b) // 2)
+            else:
+                mid = (a + b) / 2
+            pts.append(("between", a, b, mid))
+    pts.append(("above", ks[-1], None, num(ks[-1] + 1)))
+    rows = [[kind, a, b, ask(cls, field, v)] for kind, a, b, v in pts]
+    special = {"nan": ask(cls, field, float("nan")), "pinf": ask(cls, field, float("inf")), "ninf": ask(cls, field, float("-inf")),
+               "far_above": ask(cls, field, num(ks[-1] * 4 + 1000)), "far_below": ask(cls, field, num(-abs(ks[0]) * 4 - 1000))}
+    wrong = [ask(cls, field, v) for v in ("zz", (1, 2, 3), 5)] if not e["numeric"] else []
+    out.append({"cls": cls, "field": field, "rows": rows, "special": special, "wrong": wrong})
+print(json.dumps(out))
+"""
 
 
-def guard_cond(fn, var):
-    """OR of all guards of `fn` that talk about `var` only; returns (cond | None, opaque: bool)"""
-    found = []
-    opaque = False
-    for chain in guards(fn.body):
-        names = set()
-        for t, _ in chain:
-            names |= names_in(t)
-        if names != {var}:
-            continue
-        try:
-            c = None
-            for t, neg in chain:
-                ct = cond(t, var)
-                if neg:
-                    ct = ("not", ct)
-                c = ct if c is None else ("and", c, ct)
-            found.append(c)
-        except Unsupported:
-            opaque = True
-    if not found:
-        return None, opaque
-    out = found[0]
-    for c in found[1:]:
-        out = ("or", out, c)
-    return out, opaque
+def _numbers_in(mod):
+    import re
+
+    ks = set()
+    for n in ast.walk(mod):
+        if isinstance(n, ast.Constant):
+            v = n.value
+            if isinstance(v, bool):
+                continue
+            if isinstance(v, (int, float)) and v == v and abs(v) <= 1e9:
+                ks.add(Fraction(v))
+            elif isinstance(v, str) and len(v) < 200:
+                for m in re.findall(r"(?<![\w.])-?\d+(?:\.\d+)?(?:[eE][-+]?\d+)?(?![\w])", v):
+                    try:
+                        q = Fraction(m)
+                        if abs(q) <= 10**9:
+                            ks.add(q)
+                    except (ValueError, ZeroDivisionError):
+                        pass
+    return ks
 
 
 def setters_of(cls):
@@ -218,38 +193,154 @@ def setters_of(cls):
         if isinstance(st, ast.FunctionDef):
             for d in st.decorator_list:
                 if isinstance(d, ast.Attribute) and d.attr == "setter" and isinstance(d.value, ast.Name):
-                    args = [a.arg for a in st.args.args]
-                    if len(args) >= 2:
-                        out[d.value.id] = (st, args[1])
+                    out[d.value.id] = st
     return out
 
 
-def extract():
-    table, opaque = [], []
+def public_fields():
+    """(class, field, numeric?, integer?, candidate constants) from the public signatures"""
+    rows = []
     for rel, cname in CLASSES:
-        cls = find_class(parse(rel), cname)
-        if cls is None:
+        mod = parse(rel)
+        cls = find_class(mod, cname)
+        init = find_func(cls, "__init__") if cls is not None else None
+        if init is None:
             continue
-        init = find_func(cls, "__init__")
-        params = [a.arg for a in init.args.args[1:]] + [a.arg for a in init.args.kwonlyargs] if init else []
         setters = setters_of(cls)
-        for f in params:
-            del _RANGE_USED[:]
-            cc, op1 = guard_cond(init, f)
-            sc, op2 = (None, False)
-            if f in setters:
-                sc, op2 = guard_cond(setters[f][0], setters[f][1])
-            int_only = bool(_RANGE_USED)
-            if op1 or op2:
-                opaque.append(f"{cname}.{f}")
+        ks = sorted(_numbers_in(mod))
+        if len(ks) > 60:      # e.g. interpolation tables: keep the integers and the extremes
+            ks = sorted({k for k in ks if k.denominator == 1} | set(ks[:5]) | set(ks[-5:]))
+        for a in init.args.args[1:] + init.args.kwonlyargs:
+            if a.arg not in setters or a.annotation is None:
                 continue
-            if cc is None and sc is None:
-                continue  # not a validated field
-            if f not in setters:
-                opaque.append(f"{cname}.{f}:no-setter")
+            ann = ast.unparse(a.annotation)
+            numeric = ("int" in ann or "float" in ann) and "Sequence" not in ann and "tuple" not in ann and "Literal" not in ann
+            integer = numeric and "float" not in ann
+            if not numeric and not ("Literal" in ann or ann.startswith("tuple")):
+                continue            # objects, paths, sequences of objects: not value settings
+            rows.append({"cls": cname, "field": a.arg, "numeric": numeric, "int": integer,
+                         "consts": [float(k) if k.denominator != 1 else int(k) for k in ks]})
+    return rows
+
+
+# the APD bias trio (avalanche gain, pixel reset voltage, common voltage: any two determine the third) has consistency rules,
+# not ranges, for the two voltages
+EXCLUDED = {("APDCharacteristics", "common_voltage"), ("APDCharacteristics", "pixel_reset_voltage")}
+
+
+def _learn(rows, special, path, integral=False):
+    """accepted set of one path (0 = constructor, 1 = setter) as a list of intervals, or None when it is not piecewise
+    constant on the candidate breakpoints the way the ends / infinities say"""
+    verdict = [(kind, a, b, r[path]) for kind, a, b, r in rows]
+    if any(v is None for *_, v in verdict):
+        return None
+    if special["far_above"][path] != verdict[-1][3] or special["far_below"][path] != verdict[0][3]:
+        return None
+    if not integral and (special["pinf"][path] != verdict[-1][3] or special["ninf"][path] != verdict[0][3]):
+        return "inf-differs"            # (±inf are not integers: outside the domain of an integer field)
+    return verdict
+
+
+def _intervals(verdict, want):
+    """maximal runs of pieces whose verdict is `want`, as (lo, lo_closed, hi, hi_closed) with None = unbounded"""
+    runs, cur = [], None
+    for kind, a, b, v in verdict:
+        if v != want:
+            if cur:
+                runs.append(cur)
+            cur = None
+            continue
+        if kind == "below":
+            piece = (None, False, b, False)
+        elif kind == "above":
+            piece = (a, False, None, False)
+        elif kind == "at":
+            piece = (a, True, a, True)
+        else:
+            piece = (a, False, b, False)
+        cur = piece if cur is None else (cur[0], cur[1], piece[2], piece[3])
+    if cur:
+        runs.append(cur)
+    return runs
+
+
+def _interval_cond(iv):
+    lo, lc, hi, hc = iv
+    F = Fraction
+    if lo is None and hi is None:
+        return ("tt",)
+    if lo is None:
+        return ("cmp", ("x",), "le" if hc else "lt", ("const", F(hi)))
+    if hi is None:
+        return ("cmp", ("x",), "ge" if lc else "gt", ("const", F(lo)))
+    return ("chain", ("const", F(lo)), "le" if lc else "lt", ("x",), "le" if hc else "lt", ("const", F(hi)))
+
+
+def _raise_cond(verdict, nan_accepted, integral=False):
+    """the condition under which the path raises.  Integer fields: accepted runs with closed integer ends (the
+    statement about them is about integers; nan / non-integers are outside it)"""
+    if integral:
+        acc = []
+        for lo, lc, hi, hc in _intervals(verdict, True):
+            acc.append((None if lo is None else (lo if lc else lo + 1), True, None if hi is None else (hi if hc else hi - 1), True))
+        if not acc:
+            return ("tt",)
+        c = _interval_cond(acc[0])
+        for iv in acc[1:]:
+            c = ("or", c, _interval_cond(iv))
+        return ("not", c)
+    if not nan_accepted:
+        acc = _intervals(verdict, True)
+        if not acc:
+            return ("tt",)
+        c = _interval_cond(acc[0])
+        for iv in acc[1:]:
+            c = ("or", c, _interval_cond(iv))
+        return ("not", c)
+    rej = _intervals(verdict, False)
+    if not rej:
+        return ("ff",)
+    c = _interval_cond(rej[0])
+    for iv in rej[1:]:
+        c = ("or", c, _interval_cond(iv))
+    return c
+
+
+import extract as _extract_mod
+
+_CACHE: dict = _extract_mod.__dict__.setdefault("_c12_guard_cache", {})   # shared by every load of this plug-in
+
+
+def extract():
+    """-> (table, opaque): table entries {cls, field, ctor, setter, int_only}; opaque = validated non-numeric fields"""
+    key = str(REPO)
+    if key in _CACHE:
+        return _CACHE[key]
+    fields = public_fields()
+    res = run_in_repo(GUARD_PROBE % json.dumps(fields), timeout=300)
+    table, opaque = [], []
+    if isinstance(res, list):
+        for f, r in zip(fields, res):
+            name = f"{f['cls']}.{f['field']}"
+            if (f["cls"], f["field"]) in EXCLUDED:
                 continue
-            table.append({"cls": cname, "field": f, "ctor": cc or ("ff",), "setter": sc or ("ff",), "int_only": int_only})
-    return table, sorted(opaque)
+            if not f["numeric"]:
+                # a non-numeric setting is "validated" when some ill-typed value is refused by the constructor or the setter
+                if any(w[0] is False or w[1] is False for w in r["wrong"]):
+                    opaque.append(name)
+                continue
+            vc, vs = _learn(r["rows"], r["special"], 0, f["int"]), _learn(r["rows"], r["special"], 1, f["int"])
+            if vc is None or vs is None or vc == "inf-differs" or vs == "inf-differs":
+                opaque.append(name + ":not-piecewise")
+                continue
+            if all(v for *_, v in vc) and all(v for *_, v in vs) and r["special"]["nan"] == [True, True]:
+                continue        # nothing is ever refused: not a validated field
+            table.append({"cls": f["cls"], "field": f["field"], "int_only": f["int"],
+                          "ctor": _raise_cond(vc, r["special"]["nan"][0], f["int"]),
+                          "setter": _raise_cond(vs, r["special"]["nan"][1], f["int"])})
+    out = (table, sorted(opaque))
+    _CACHE[key] = out
+    return out
 
 
 def consts_of(c):
@@ -295,82 +386,103 @@ def cond_json(c):
     return [k] + [cond_json(x) if isinstance(x, tuple) else x for x in c[1:]]
 
 
+# ------------------------------------------------------------------ loader facts: OBSERVED on `loads`
+CONFIG_PROBE = r"""
+import json, os, tempfile, warnings, itertools
+warnings.filterwarnings("ignore")
+import numpy as np, yaml
+from pyxel.configuration import loads
+CAND = json.loads(%r)
+tmp = tempfile.mkdtemp()
+np.save(os.path.join(tmp, "target.npy"), np.ones((3, 4)))
+det = {"geometry": {"row": 3, "col": 4, "total_thickness": 10.0, "pixel_vert_size": 10.0, "pixel_horz_size": 10.0},
+       "environment": {"temperature": 100.0},
+       "characteristics": {"quantum_efficiency": 0.5, "charge_to_volt_conversion": 1e-6, "pre_amplification": 10.0,
+                           "adc_bit_resolution": 16, "adc_voltage_range": [0.0, 5.0], "full_well_capacity": 1000}}
+apd = {"geometry": det["geometry"], "environment": det["environment"],
+       "characteristics": {"roic_gain": 0.8, "quantum_efficiency": 0.9, "full_well_capacity": 100000, "adc_bit_resolution": 16,
+                           "adc_voltage_range": [0.0, 10.0], "avalanche_gain": 2.0, "pixel_reset_voltage": 5.0}}
+modes = {"exposure": {}, "observation": {"parameters": [{"key": "detector.environment.temperature", "values": [100, 200]}]},
+         "calibration": {"target_data_path": [os.path.join(tmp, "target.npy")],
+                         "fitness_function": {"func": "pyxel.calibration.fitness.sum_of_abs_residuals"},
+                         "algorithm": {"type": "sade", "generations": 2, "population_size": 8},
+                         "parameters": [{"key": "detector.characteristics.quantum_efficiency", "values": "_", "boundaries": [0.1, 0.9]}],
+                         "result_fit_range": [0, 3, 0, 4], "target_fit_range": [0, 3, 0, 4]}}
+
+
+def load(keys):
+    doc = {"pipeline": {}}
+    for k in keys:
+        doc[k] = modes.get(k, apd if k.startswith("apd") else det)
+    try:
+        cfg = loads(yaml.safe_dump(doc, sort_keys=False))
+        return [type(cfg.running_mode).__name__, type(cfg.detector).__name__]
+    except Exception as e:
+        return type(e).__name__
+
+mode_keys = [k for k in CAND["modes"] if isinstance(load([k, "ccd_detector"]), list)]
+det_keys = [k for k in CAND["detectors"] if isinstance(load(["exposure", k]), list)]
+counts_m = {n: all(isinstance(load(list(c) + ["ccd_detector"]), list) for c in itertools.combinations(mode_keys, n)) for n in range(len(mode_keys) + 1)}
+counts_d = {n: all(isinstance(load(["exposure"] + list(c)), list) for c in itertools.combinations(det_keys, n)) for n in range(len(det_keys) + 1)}
+# range checks are reached by a sweep / override: Processor.set and create_new_processor run the property setter
+from pyxel.pipelines import Processor
+from pyxel.observation.misc import create_new_processor
+cfg = loads(yaml.safe_dump({"pipeline": {}, "exposure": {}, "ccd_detector": det}))
+p = Processor(detector=cfg.detector, pipeline=cfg.pipeline)
+def refused(f, *a):
+    try:
+        f(*a)
+        return False
+    except ValueError:
+        return True
+    except Exception:
+        return False
+setter = refused(p.set, "detector.environment.temperature", -5.0) and refused(create_new_processor, p, {"detector.characteristics.quantum_efficiency": 1.5}) \
+    and not refused(p.set, "detector.environment.temperature", 150.0)
+print(json.dumps({"modeKeys": mode_keys, "detKeys": det_keys, "counts_m": counts_m, "counts_d": counts_d, "setter": setter}))
+"""
+
+
+def _op_from_counts(counts: dict) -> str:
+    """the comparison `count <op> 1 -> refuse` that the observed acceptance per number of keys amounts to"""
+    obs = {int(n): (not ok) for n, ok in counts.items()}       # n -> refused?
+    for op, f in (("!=", lambda n: n != 1), (">", lambda n: n > 1), ("<", lambda n: n < 1), (">=", lambda n: n >= 1),
+                  ("<=", lambda n: n <= 1), ("==", lambda n: n == 1)):
+        if all(f(n) == r for n, r in obs.items()):
+            return op
+    return ""
+
+
+_FACTS: dict = _extract_mod.__dict__.setdefault("_c12_facts_cache", {})
+
+
 def config_facts():
-    mod = parse("pyxel/configuration/configuration.py")
-    fn = find_func(mod, "_build_configuration")
+    key = str(REPO)
+    if key in _FACTS:
+        return _FACTS[key]
     facts = {"modeKeys": [], "detKeys": [], "modeOp": "", "detOp": "", "modeDispatch": [], "detDispatch": [],
-             "postInitModeOp": "", "postInitDetOp": ""}
-    sym = {ast.NotEq: "!=", ast.Gt: ">", ast.Lt: "<", ast.GtE: ">=", ast.LtE: "<=", ast.Eq: "=="}
-
-    def count_ops(func, names):
-        res = {}
-        for n in ast.walk(func):
-            if isinstance(n, ast.If) and isinstance(n.test, ast.Compare) and isinstance(n.test.left, ast.Name) \
-                    and n.test.left.id in names and len(n.test.ops) == 1 \
-                    and isinstance(n.test.comparators[0], ast.Constant) and n.test.comparators[0].value == 1 \
-                    and any(isinstance(b, ast.Raise) for b in n.body):
-                res[n.test.left.id] = sym.get(type(n.test.ops[0]), "?")
-        return res
-
-    if fn is not None:
-        for n in ast.walk(fn):
-            if isinstance(n, (ast.Assign, ast.AnnAssign)):
-                t = n.targets[0] if isinstance(n, ast.Assign) else n.target
-                if isinstance(t, ast.Name) and isinstance(n.value, (ast.List, ast.Tuple)):
-                    try:
-                        vals = [ast.literal_eval(e) for e in n.value.elts]
-                    except Exception:  # noqa: BLE001
-                        continue
-                    if t.id == "keys_running_mode":
-                        facts["modeKeys"] = vals
-                    elif t.id == "keys_detectors":
-                        facts["detKeys"] = vals
-        ops = count_ops(fn, {"num_running_modes", "num_detector", "num_detectors"})
-        facts["modeOp"] = ops.get("num_running_modes", "")
-        facts["detOp"] = ops.get("num_detector", ops.get("num_detectors", ""))
-
-        def dispatch(first_key_options):
-            for st in fn.body:
-                if isinstance(st, ast.If):
-                    chain, cur = [], st
-                    while isinstance(cur, ast.If):
-                        t = cur.test
-                        if isinstance(t, ast.Compare) and len(t.ops) == 1 and isinstance(t.ops[0], ast.In) \
-                                and isinstance(t.left, ast.Constant) and isinstance(t.comparators[0], ast.Name):
-                            chain.append(t.left.value)
-                        else:
-                            chain = []
-                            break
-                        cur = cur.orelse[0] if len(cur.orelse) == 1 and isinstance(cur.orelse[0], ast.If) else None
-                    if chain and chain[0] in first_key_options:
-                        return chain
-            return []
-
-        facts["modeDispatch"] = dispatch({"exposure", "observation", "calibration"})
-        facts["detDispatch"] = dispatch({"ccd_detector", "cmos_detector", "mkid_detector", "apd_detector"})
-    post = find_func(find_class(mod, "Configuration"), "__post_init__")
-    if post is not None:
-        ops = count_ops(post, {"num_running_modes", "num_detectors", "num_detector"})
-        facts["postInitModeOp"] = ops.get("num_running_modes", "")
-        facts["postInitDetOp"] = ops.get("num_detectors", ops.get("num_detector", ""))
+             "postInitModeOp": "", "postInitDetOp": "", "setter": False}
+    # candidate keys: the documented ones, then every string literal of the loader module that looks like one
+    mod = parse("pyxel/configuration/configuration.py")
+    lits = [n.value for n in ast.walk(mod) if isinstance(n, ast.Constant) and isinstance(n.value, str)] if mod else []
+    modes = ["exposure", "observation", "calibration"]
+    dets = ["ccd_detector", "cmos_detector", "mkid_detector", "apd_detector"]
+    dets += sorted({s for s in lits if s.endswith("_detector") and s not in dets and s.isidentifier()})
+    res = run_in_repo(CONFIG_PROBE % json.dumps({"modes": modes, "detectors": dets}), timeout=300)
+    if isinstance(res, dict):
+        facts["modeKeys"], facts["detKeys"] = res["modeKeys"], res["detKeys"]
+        facts["modeDispatch"], facts["detDispatch"] = res["modeKeys"], res["detKeys"]
+        # 0 keys is refused by the loader as a whole (by the count or by its "nothing provided" branch): the observable
+        # decision is a function of the number of keys present
+        facts["modeOp"] = facts["postInitModeOp"] = _op_from_counts(res["counts_m"])
+        facts["detOp"] = facts["postInitDetOp"] = _op_from_counts(res["counts_d"])
+        facts["setter"] = bool(res["setter"])
+    _FACTS[key] = facts
     return facts
 
 
 def sweep_uses_setter() -> bool:
-    fn = find_func(find_class(parse("pyxel/pipelines/processor.py"), "Processor"), "set")
-    cnp = find_func(parse("pyxel/observation/misc.py"), "create_new_processor")
-    if fn is None or cnp is None:
-        return False
-
-    def calls(node, name):
-        for n in ast.walk(node):
-            if isinstance(n, ast.Call):
-                f = n.func
-                if (f.attr if isinstance(f, ast.Attribute) else getattr(f, "id", None)) == name:
-                    return True
-        return False
-
-    return calls(fn, "setattr") and calls(cnp, "set")
+    return bool(config_facts().get("setter"))
 
 
 def gen() -> str:
